@@ -14,6 +14,7 @@ import Falcon.Model.FftFlt
 import Falcon.Model.FfSampling
 import Falcon.Model.SignFlt
 import Falcon.Model.Keygen
+import Falcon.Model.KeygenWindow
 import Falcon.Spec.RefFormat
 import Falcon.Spec.Codec
 /- dispatch of one line-protocol op to the model -/
@@ -353,7 +354,9 @@ def execOp (chk : Bool) (tok : List String) : String :=
           let leaves := FfS.normalizedLeaves (FfS.sigmaOf N) (FfS.treeOfB0 b0)
           let lmin := leaves.foldl (fun a x => if x < a then x else a) (1.0 / 0.0)
           let lmax := leaves.foldl (fun a x => if x > a then x else a) (-(1.0 / 0.0))
-          s!"{renderInts f} {renderInts g} {renderInts cF} {renderInts cG} {renderInts h} {lmin.toBits.toNat} {lmax.toBits.toNat}"
+          -- the hypothesis of C04.model_generated_keys_are_ntru_trapdoors, evaluated for this key
+          let win := if Keygen.entryWindow f g then "ok" else "OUTSIDE"
+          s!"{renderInts f} {renderInts g} {renderInts cF} {renderInts cG} {renderInts h} {lmin.toBits.toNat} {lmax.toBits.toNat} window={win}"
   | ["sk_roundtrip", _, _] => "skip"
   | ["keygen_digest", _, _] => "skip"
   | _ => "bad-op"
